@@ -98,6 +98,33 @@ class _Renamer:
         return tree
 
 
+def expand_augassign(tree):
+    """behaviour-preserving: x op= y  ->  x = x op y (targets without side effects in the repo), plus a debug print at every function start"""
+    import ast
+    import copy
+    tree = copy.deepcopy(tree)
+
+    class Tr(ast.NodeTransformer):
+        def visit_AugAssign(self, node):
+            self.generic_visit(node)
+            load = copy.deepcopy(node.target)
+            for n in ast.walk(load):
+                if hasattr(n, "ctx"):
+                    n.ctx = ast.Load()
+            return ast.copy_location(ast.Assign(targets=[node.target], value=ast.BinOp(left=load, op=node.op, right=node.value)), node)
+
+        def visit_FunctionDef(self, node):
+            self.generic_visit(node)
+            dbg = ast.Expr(value=ast.Call(func=ast.Name(id="print", ctx=ast.Load()), args=[ast.Constant(value="debug")], keywords=[]))
+            body = node.body
+            k = 1 if body and isinstance(body[0], ast.Expr) and isinstance(getattr(body[0], "value", None), ast.Constant) and isinstance(body[0].value.value, str) else 0
+            node.body = body[:k] + [dbg] + body[k:]
+            return node
+    out = Tr().visit(tree)
+    ast.fix_missing_locations(out)
+    return out
+
+
 def run(prop, repo, seed):
     mod = props.load(prop)
     pinned = getattr(mod, "PINNED", [])
@@ -131,6 +158,11 @@ def run(prop, repo, seed):
         table.append(dict(variant=f"ast round trip of {relpath}", kind="preserving", outcome=out, detail=detail))
         if out != base_out:
             broken.append(f"behaviour-preserving ast round trip of {relpath} changed the verdict to {out}: {detail}")
+        v = repo.variant(relpath, ast.unparse(expand_augassign(m[0].tree)).encode("utf-8"))
+        out, detail = run_variant(prop, v)
+        table.append(dict(variant=f"augmented assignments expanded and a debug print added to every function in {relpath}", kind="preserving", outcome=out, detail=detail))
+        if out != base_out:
+            broken.append(f"behaviour-preserving expansion of augmented assignments / debug prints in {relpath} changed the verdict to {out}: {detail}")
         v = repo.variant(relpath, ast.unparse(_Renamer.rename_module(m[0].tree)).encode("utf-8"))
         out, detail = run_variant(prop, v)
         table.append(dict(variant=f"renaming of all function-local variables in {relpath}", kind="preserving", outcome=out, detail=detail))
